@@ -15,6 +15,10 @@ def qs(x):
 
 def gen_project(rng, stream="structured", n_tasks=None, facilities=None, fs_only=False):
     """returns a case dict without 'ops'"""
+    if stream == "pairs":
+        return gen_pairs_project(rng)
+    if stream == "crossing":
+        return gen_crossing_project(rng)
     nt = n_tasks if n_tasks is not None else rng.choice([1, 2, 2, 3, 3, 4, 4, 5, 6, 7, 8])
     if stream == "edge" and rng.random() < 0.3:
         nt = 1
@@ -155,6 +159,67 @@ def gen_project(rng, stream="structured", n_tasks=None, facilities=None, fs_only
             "rank": rng.sample(range(8), 8)[:nt] if nt <= 8 else None,
             "crank": rng.sample(range(8), 8)[:nc] if nc <= 8 else None}
     return case
+
+
+def gen_pairs_project(rng):
+    """directed family: facility tasks that work with SEVERAL worker/facility
+    pairs at once, facilities of different skill, and workers / facilities that
+    are individually absent in the middle of the work (pairing by position,
+    absence bookkeeping, cost of partially absent pairs)"""
+    nt = rng.choice([1, 1, 2, 3])
+    nf = rng.choice([2, 2, 3])
+    nw = rng.choice([2, 2, 3])
+    tasks, edges = [], []
+    for i in range(nt):
+        tasks.append({"name": i if rng.random() < 0.7 else 0, "work": qs(rng.choice([Fraction(3), Fraction(4), Fraction(6), Fraction(5, 2)])),
+                      "progress": "0/1", "auto": False, "rate": "1/1", "need_fac": True, "comp": rng.randrange(nt if rng.random() < 0.5 else 1),
+                      "teams": [0], "wps": [0], "fixw": None, "fixf": None, "due": -1,
+                      "wrule": rng.choice([-1, 0, 1, 2]), "frule": rng.choice([0, 1, 2]), "prule": 0})
+        if i > 0 and rng.random() < 0.4:
+            edges.append([i - 1, i, rng.choice([0, 0, 1])])
+    ncomp = max(t["comp"] for t in tasks) + 1
+    comps = [{"size": "1/1", "children": []} for _ in range(ncomp)]
+    names = sorted({t["name"] for t in tasks})
+    fskill_vals = [Fraction(1), Fraction(1, 2), Fraction(2), Fraction(1, 4), Fraction(3, 2)]
+    rng.shuffle(fskill_vals)
+    facs = []
+    for j in range(nf):
+        facs.append({"skills": {str(n): qs(fskill_vals[j % len(fskill_vals)]) for n in names}, "cost": qs(rng.choice([Fraction(1), Fraction(3)])),
+                     "solo": False, "abs": sorted(set(rng.randrange(0, 6) for _ in range(rng.choice([0, 0, 1, 2])))), "name": j})
+    ws = []
+    for j in range(nw):
+        ws.append({"skills": {str(n): qs(rng.choice([Fraction(1), Fraction(1, 2), Fraction(2)])) for n in names},
+                   "fskills": {str(f): "1/1" for f in range(nf)}, "cost": qs(rng.choice([Fraction(1), Fraction(5, 2)])),
+                   "solo": False, "abs": sorted(set(rng.randrange(0, 6) for _ in range(rng.choice([0, 1, 1, 2])))), "mainwp": None, "name": j})
+    wps = [{"cap": qs(Fraction(ncomp)), "inputs": [], "facs": facs}]
+    return {"tasks": tasks, "edges": edges, "comps": comps, "teams": [{"workers": ws}], "wps": wps, "unit": 60,
+            "rank": rng.sample(range(8), 8)[:nt], "crank": rng.sample(range(8), 8)[:ncomp]}
+
+
+def gen_crossing_project(rng):
+    """directed family: several independent tasks compete for one or two
+    workers over many steps under rules whose keys drift (remaining work,
+    slack, FIFO); workers join late (individual absences at the first steps),
+    so the priority order of an unchanged candidate set changes between
+    allocation steps"""
+    nt = rng.choice([2, 3, 3, 4, 5])
+    tasks, edges = [], []
+    for i in range(nt):
+        tasks.append({"name": 0 if rng.random() < 0.6 else i, "work": qs(rng.choice([Fraction(2), Fraction(3), Fraction(4), Fraction(5), Fraction(7, 2), Fraction(6)])),
+                      "progress": "0/1", "auto": False, "rate": "1/1", "need_fac": False, "comp": None,
+                      "teams": [0], "wps": [], "fixw": None, "fixf": None, "due": -1,
+                      "wrule": rng.choice([-1, 0, 1, 2]), "frule": 0, "prule": 0})
+        if i > 1 and rng.random() < 0.2:
+            edges.append([rng.randrange(i), i, 0])
+    names = sorted({t["name"] for t in tasks})
+    nw = rng.choice([2, 2, 3])
+    ws = []
+    for j in range(nw):
+        late = sorted(range(rng.choice([0, 1, 2, 3]))) if j > 0 else []
+        ws.append({"skills": {str(n): qs(rng.choice([Fraction(1), Fraction(1), Fraction(1, 2), Fraction(2)])) for n in names},
+                   "fskills": {}, "cost": "1/1", "solo": rng.random() < 0.5, "abs": late, "mainwp": None, "name": j})
+    return {"tasks": tasks, "edges": edges, "comps": [], "teams": [{"workers": ws}], "wps": [], "unit": 60,
+            "rank": rng.sample(range(8), 8)[:nt], "crank": []}
 
 
 def gen_sim_op(rng, case, absences=True):
